@@ -73,6 +73,8 @@ def canon_val(v):
     if isinstance(v, (list, tuple)):
         return [canon_val(x) for x in v]
     if isinstance(v, np.ndarray):
+        if v.ndim == 0:
+            raise Unsupported("0-d array")
         return [canon_val(x) for x in v.tolist()]
     raise Unsupported(type(v).__name__)
 
